@@ -76,18 +76,23 @@ class SyncTraitRemove(Contract):
             wr = z3.Function("weakref_to", Val, Val)
             cx.weakref_hook = lambda I2, args, st, k: k(VElem(wr(as_val(I2.cx, args[0], st))), st)      # the callback is kept, not run here
 
+            other = z3.Function("partner_value", Val, z3.StringSort(), Val)
+
             def dyn_getattr(I2, args, st, k):
-                if isinstance(args[0], VRef) and isinstance(args[1], VStr) and args[1].t is not None:
-                    return k(VElem(cur(args[1].t)), st.gset("read_name", args[1].t))
+                if isinstance(args[1], VStr) and args[1].t is not None:
+                    if isinstance(args[0], VRef):
+                        return k(VElem(cur(args[1].t)), st.gset("read_name", args[1].t))
+                    if isinstance(args[0], VElem):
+                        return k(VElem(other(args[0].t, args[1].t)), st)
                 return None
             cx.dyn_getattr_hook = dyn_getattr
 
             def dyn_setattr(I2, args, st, k):
                 obj, nm, v = args
-                if isinstance(obj, VElem) and isinstance(nm, VStr) and nm.t is not None:
+                if isinstance(nm, VStr) and nm.t is not None and isinstance(obj, (VElem, VRef)):
                     src = st.ghost.get("read_name")
                     ok = src is not None and isinstance(v, VElem) and v.t.eq(cur(src))
-                    return k(NONE, log(st, ("push", obj.t, nm.t, src if ok else z3.StringVal("<not the current value>"))))
+                    return k(NONE, log(st, ("push", as_val(I2.cx, obj, st), nm.t, src if ok else z3.StringVal("<not this object's current value>"))))
                 return None
             cx.dyn_setattr_hook = dyn_setattr
 
